@@ -1640,7 +1640,15 @@ der_break(int cls, const unsigned char *der, size_t dl, unsigned char *out, int 
 	case 5: *name = "r-tag"; out[hdr] = 0x03; break;
 	case 6: *name = "s-tag"; out[hdr + 2 + rl] = 0x04; break;
 	case 7: *name = "truncated"; l = dl - 1 - vf_below(&rng, (uint32_t)(dl > 9 ? 8 : dl - 1)); break;
-	case 8: *name = "r-len-overrun"; out[hdr + 1] = (unsigned char)(dl); if (out[hdr + 1] >= 0x80) out[hdr + 1] = 0x7F; break;
+	case 8:
+		/* r claims more bytes than remain before a possible s header:
+		 * only when 0x7F really overruns (otherwise the bytes could
+		 * parse as another well-formed structure by coincidence) */
+		*name = "r-len-overrun";
+		if (hdr + 2 + 0x7F + 2 <= dl) { *kind = -1; break; }
+		out[hdr + 1] = 0x7F;
+		if (rl == 0x7F) *kind = -1;
+		break;
 	case 9: *name = "s-len+1"; out[hdr + 2 + rl + 1] ++; break;
 	case 10: *name = "indefinite-length"; if (hdr != 2) { *kind = -1; break; } out[1] = 0x80; break;
 	case 11: *name = "empty"; l = 0; break;
